@@ -727,7 +727,10 @@ func (env *Env) evalIndex(x *EIndex) (*Val, error) {
 				for _, lf := range vleaves {
 					k, s := mapValKey(a.T, lf, ksort)
 					h := e.heapGet(env.st, k, s)
-					out.L = append(out.L, Sc{ite(present, "(select (select "+h+" "+a.L[0].T+") "+it+")", e.zero(lf.Sort)), lf.Sort})
+					t := "(select (select " + h + " " + a.L[0].T + ") " + it + ")"
+					e.typeAssume(env.st, lf, t)
+					e.entryRefFact(k, s, lf, a.L[0].T, it)
+					out.L = append(out.L, Sc{ite(present, t, e.zero(lf.Sort)), lf.Sort})
 				}
 				return out, nil
 			}
